@@ -979,6 +979,22 @@ func (x *Exec) checkInterrupted(rec *StepRecord, nBefore int) {
 	if rec.Resp == nil || rec.Resp.ExecErr != "" || rec.Resp.LoadErr != "" || rec.Resp.Panic != "" {
 		return
 	}
+	// E8: an I/O error hit an output file, Execute returned nil all the same, and the output is not what
+	// was rendered: the failure was swallowed and (with All) the package is recorded as done
+	ioFault := false
+	for _, e := range rec.Resp.Events {
+		if (strings.HasPrefix(e.Fault, "errno:") || strings.HasPrefix(e.Fault, "short:")) && e.Exec >= 0 && e.Kind != "os.read" && e.Path != "gengo.sum" {
+			ioFault = true
+		}
+	}
+	if ioFault {
+		for _, v := range x.Viol[nBefore:] {
+			if (v.Property == "C01" && (v.Oracle == "F0" || v.Oracle == "F1" || v.Oracle == "F4")) || v.Key() == "C07/T2/rendered-file-missing" {
+				x.violate("C02", "E8", "io-error-swallowed", "an I/O error on an output file was injected, Execute returned nil, but "+v.Key()+": "+v.Detail, nil)
+				break
+			}
+		}
+	}
 	if rec.Resp.FirstExecErr != "" {
 		// Execute failed and the caller called it again on the same executor: the second call must not
 		// trust anything the failed call left in memory
